@@ -268,10 +268,10 @@ impl Segments {
         }
     }
 
-    // // Named like in rfc9293 SND.NEXT
-    // pub fn next_seq_nr(&self) -> SeqNr {
-    //     self.snd_una + self.segments.len() as u16
-    // }
+    // The sequence number following the last queued (sent or not yet sent) segment.
+    pub fn next_seq_nr(&self) -> SeqNr {
+        self.snd_una + self.segments.len() as u16
+    }
 
     pub fn first_seq_nr(&self) -> Option<SeqNr> {
         if self.segments.is_empty() {
